@@ -62,7 +62,35 @@ func main() {
 	nrand := flag.Int("rand", 1000, "random full-board occupancies per slider type (whole run)")
 	seed := flag.Int64("seed", 1, "seed")
 	out := flag.String("out", "", "output file")
+	entry := flag.String("entry", "", "replay one slider entry: JSON {k, sq, occ[]}")
 	flag.Parse()
+	if *entry != "" {
+		var e Ev
+		if err := json.Unmarshal([]byte(*entry), &e); err != nil {
+			panic(err)
+		}
+		var occ BitBoard
+		for _, q := range e.Occ {
+			occ |= 1 << uint(q)
+		}
+		switch e.K {
+		case "rook":
+			e.Res = sqs(attacks.RookMoves(Square(e.Sq), occ))
+		case "bishop":
+			e.Res = sqs(attacks.BishopMoves(Square(e.Sq), occ))
+		default:
+			panic("only slider entries are replayed this way")
+		}
+		f, err := os.Create(*out)
+		if err != nil {
+			panic(err)
+		}
+		defer f.Close()
+		if err := json.NewEncoder(f).Encode(e); err != nil {
+			panic(err)
+		}
+		return
+	}
 	f, err := os.Create(*out)
 	if err != nil {
 		panic(err)
